@@ -537,6 +537,59 @@ def c06_replay(prop, path):
 PROPS["C06"] = {"run": c06_run, "replay": c06_replay}
 
 
+def c08_run(prop, tier, seed):
+    wd = vlib.workdir(prop)
+    known = vlib.load_known()
+    r1, cases = _cases_from_tlc("MC_Wire", "MC_Wire.cfg", wd)
+    if len(cases) < 3000:
+        raise ToolError("vacuity guard: too few wire messages enumerated")
+    cf = os.path.join(wd, "wire.cases")
+    with open(cf, "w") as f:
+        for c in cases:
+            f.write(json.dumps(c) + "\n")
+    rep_path = os.path.join(wd, "wire.rep")
+    vlib.run_vh(["wire", "--cases", cf, "--out", rep_path])
+    rep = json.load(open(rep_path))
+    violations, known_hits = [], []
+    for d in rep["distinct"]:
+        sig = d["sig"]
+        kf = next((k for k in known["findings"] if sig.startswith(k["signature"])), None)
+        if kf:
+            known_hits.append({"sig": sig, "what": f"{kf['what']} [{sig}]"})
+            continue
+        path = vlib.save_replay(prop, re.sub(r"[^A-Za-z0-9_.-]", "_", sig)[:140], {"property": prop, "signature": sig, "case": d["case"]})
+        violations.append({"sig": sig, "what": f"{sig}: {d['detail']} for {json.dumps(d['case'])[:300]}", "replay": path})
+    if rep["evaluated"] != len(cases) or len(rep["kinds"]) < 10:
+        raise ToolError("the harness did not evaluate every enumerated message")
+    coverage = {"states": r1["stats"]["distinct"], "transitions": len(cases), "traces_validated_against_impl": rep["evaluated"], "evaluations": rep["evaluated"] * 4,
+                "distinct_nontrivial": rep["evaluated"], "submessages_by_kind": rep["kinds"], "messages_larger_than_65535_octets": rep["messages_larger_than_65535"],
+                "rule": "one case = one abstract message of Wire.tla (every submessage kind with at most two fields off the default, alone, in front of a HEARTBEAT, behind an INFO_TS): "
+                        "encoded by the library, length fields and total length compared with Wire!EncLen/LenField, bytes compared with an independent encoder, then the library's bytes and "
+                        "the independent little- and big-endian encodings are decoded by the library and compared field by field with the abstract message",
+                "exhaustive": True, "checker_cmd": r1["stats"]["cmd"]}
+    return {"level": "model_checking", "coverage": coverage, "violations": violations, "known": known_hits,
+            "assumptions": ["64 bit field values are named in the specification and mapped to numbers by the harness (harness/src/wire.rs)",
+                            "the independent encoder is part of the harness", "INFO_REPLY, PAD and vendor specific submessages are only covered as received (adversarial) messages (C06)"]}
+
+
+def c08_replay(prop, path):
+    rep = json.load(open(path))
+    wd = vlib.workdir(prop + ".replay")
+    cf = os.path.join(wd, "c.cases")
+    open(cf, "w").write(json.dumps(rep["case"]) + "\n")
+    out = os.path.join(wd, "c.rep")
+    vlib.run_vh(["wire", "--cases", cf, "--out", out])
+    r = json.load(open(out))
+    print(json.dumps(r)[:1500])
+    if any(d["sig"] == rep["signature"] for d in r["distinct"]):
+        print(f"VIOLATION property={prop} replay={path}")
+        return 1
+    return 0
+
+
+PROPS["C08"] = {"run": c08_run, "replay": c08_replay}
+
+
 def c42_run(prop, tier, seed):
     import time
     wd = vlib.workdir(prop)
